@@ -298,3 +298,17 @@ Proof.
     split; vm_compute; reflexivity.
   - vm_compute. repeat constructor.
 Qed.
+
+(* the quote-free premise is needed (quote pairing is positional over the whole document): with one double
+   quote in P = "\"a.\n\n", the quotes of D = "\"b\"" pair up differently behind P than alone, and P's own quote
+   gets a twin *)
+Example C12_quote_premise_needed :
+  let P := [34; 97; 46; 10; 10]%N in let D := [34; 98; 34]%N in
+  ~ quote_free P /\
+  map ParaSplit.tkind (doc_tokens ascii_uni P) = [KQuote None; ParaSplit.KWord; KPeriod; KBreak] /\
+  map ParaSplit.tkind (doc_tokens ascii_uni D) = [KQuote (Some 2); ParaSplit.KWord; KQuote (Some 0)] /\
+  map ParaSplit.tkind (doc_tokens ascii_uni (P ++ D))
+  = [KQuote (Some 4); ParaSplit.KWord; KPeriod; KBreak; KQuote (Some 0); ParaSplit.KWord; KQuote None].
+Proof.
+  cbv zeta. split; [intros H; inversion H; discriminate|]. repeat split; vm_compute; reflexivity.
+Qed.
